@@ -730,3 +730,159 @@ Proof.
   - destruct (mux_bus _ _) as [p|e'] eqn:Mx; cbn [cv] in X; [discriminate X|]. injection X as ->. reflexivity.
 Qed.
 Print Assumptions tie_bridge_ports.
+
+(* ================================================================ wishbone components *)
+
+Definition gran_ok (g : pyint) : Prop := match g with VBad => False | _ => True end.
+
+Lemma wb_init_ok a d gran fs s : gran_ok gran -> gen_wishbone_Signature_init (VInt a) (VInt d) gran fs = Ok s ->
+  mk_wb a d (gran_arg gran) (feats_of (feats_list fs)) (feats_bad fs) = MW.Ok (abs_wb s).
+Proof.
+  intros G H. pose proof (tie_wb_init (VInt a) (VInt d) gran fs) as T. rewrite H in T. cbn [rmap] in T.
+  destruct gran; try contradiction;
+    (destruct (mk_wb _ _ _ _ _) as [x|e]; cbn [cv] in T; [|discriminate T]; apply Ok_inj in T; unfold id in T; subst x; reflexivity).
+Qed.
+Lemma wb_init_err a d gran fs e : gran_ok gran -> gen_wishbone_Signature_init (VInt a) (VInt d) gran fs = Err e ->
+  exists e', mk_wb a d (gran_arg gran) (feats_of (feats_list fs)) (feats_bad fs) = MW.Err e' /\ cv_exn e' = e.
+Proof.
+  intros G H. pose proof (tie_wb_init (VInt a) (VInt d) gran fs) as T. rewrite H in T. cbn [rmap] in T.
+  destruct gran; try contradiction;
+    (destruct (mk_wb _ _ _ _ _) as [x|e']; cbn [cv] in T; [discriminate T|]; injection T as T; eauto).
+Qed.
+Lemma wb_create_ok a d gran fs s : gran_ok gran -> gen_wishbone_Signature_init (VInt a) (VInt d) gran fs = Ok s ->
+  exists x, gen_wishbone_Signature_create s = Ok {| wishbone_Interface_signature := (false, x) |} /\ abs_wb x = abs_wb s.
+Proof.
+  intros G H. pose proof (wb_init_ok _ _ _ _ _ G H) as M.
+  pose proof (tie_wb_create s) as T. rewrite (create_same (AWb _ _ _ _ _) _ M) in T. cbn [cv] in T.
+  destruct (gen_wishbone_Signature_create s) as [[[f x]]|e]; cbn [rmap] in T; [|discriminate T].
+  apply Ok_inj, pair_inj in T. cbn [fst snd wishbone_Interface_signature] in T. destruct T as [-> T2]. eauto.
+Qed.
+
+(* ---------------------------------------------------------------- wishbone.Arbiter *)
+
+Theorem tie_arb_ports : forall a d gran fs, gran_ok gran ->
+  rmap (fun c => (absd (wishbone_Arbiter_ports c), wb_attr (wishbone_Arbiter_port_bus c)))
+       (gen_wishbone_Arbiter_init (VInt a) (VInt d) gran fs) =
+  cv one_bus (arb_bus a d (gran_arg gran) (feats_of (feats_list fs)) (feats_bad fs)).
+Proof.
+  intros a d gran fs G. unfold gen_wishbone_Arbiter_init, arb_bus.
+  destruct (gen_wishbone_Signature_init _ _ _ _) as [s|e] eqn:E; cbn [bind rmap].
+  - pose proof (wb_init_ok _ _ _ _ _ G E) as M. destruct (wb_create_ok _ _ _ _ _ G E) as (x & C & Ax).
+    rewrite M. cbv zeta. rewrite C. cbn [bind MW.bind cv rmap].
+    unfold wb_attr, one_bus. cbn [wishbone_Arbiter_port_bus wishbone_Arbiter_ports wishbone_Interface_signature fst snd xorb].
+    rewrite Ax. reflexivity.
+  - destruct (wb_init_err _ _ _ _ _ G E) as (e' & M & <-). rewrite M. reflexivity.
+Qed.
+Print Assumptions tie_arb_ports.
+
+(* ---------------------------------------------------------------- wishbone.Decoder *)
+
+(* data_width // granularity of an accepted signature is 1, 2, 4 or 8 *)
+Lemma ratio_pow2 d g : wb_width_ok d = true -> wb_width_ok g = true -> g <= d ->
+  exists k, exact_log2 (d / g) = Ok k /\ 0 <= k <= 3.
+Proof.
+  intros Hd Hg L. apply wb_width_ok_spec in Hd. apply wb_width_ok_spec in Hg.
+  destruct Hd as [->|[->|[->| ->]]], Hg as [->|[->|[->| ->]]]; try lia;
+    (eexists; split; [vm_compute; reflexivity|lia]).
+Qed.
+
+Theorem tie_wbdec_ports : forall a d gran fs al, gran_ok gran ->
+  rmap (fun c => (absd (wishbone_Decoder_ports c), wb_attr (wishbone_Decoder_port_bus c)))
+       (gen_wishbone_Decoder_init (VInt a) (VInt d) gran fs al) =
+  match wbdec_bus a d (gran_arg gran) (feats_of (feats_list fs)) (feats_bad fs) with
+  | MW.Ok p => if al_bad al then Err ValueError else Ok (one_bus p)     (* MemoryMap(.., alignment=alignment) *)
+  | MW.Err e => Err (cv_exn e)
+  end.
+Proof.
+  intros a d gran fs al G. unfold gen_wishbone_Decoder_init, wbdec_bus. cbv zeta.
+  set (g2 := if is_none gran then VInt d else gran).
+  assert (G2 : exists g', g2 = VInt g' /\ g' = match gran_arg gran with Some x => x | None => d end).
+  { destruct gran; try contradiction; cbn; eauto. }
+  destruct G2 as (g' & -> & Eg). rewrite <- Eg. clear Eg G gran.
+  destruct (gen_wishbone_Signature_init _ _ _ _) as [s|e] eqn:E; cbn [bind rmap].
+  - pose proof (wb_init_ok _ _ (VInt g') _ _ I E) as M. destruct (wb_create_ok _ _ (VInt g') _ _ I E) as (x & C & Ax).
+    cbn [gran_arg] in M. rewrite M, C. cbn [bind MW.bind zof].
+    destruct (construct_wb_accepts _ _ _ _ _ _ M) as (Pa & Pd & Pg & Pl & _ & S). cbv zeta in Pg, Pl, S.
+    destruct (ratio_pow2 d g' Pd Pg Pl) as (k & K & Pk). rewrite K. cbn [bind].
+    destruct (al_bad al) eqn:B.
+    + rewrite mm_init_bad; [reflexivity|]. unfold mm_bad. unfold al_bad in B. rewrite B. apply orb_true_r.
+    + destruct (mm_init_ok (VInt (Z.max 1 (a + k))) (VInt g') al) as (m & Hm & M1 & M2 & _).
+      { unfold mm_bad. unfold al_bad in B. rewrite B. cbn [is_int zof negb orb].
+        apply wb_width_ok_spec in Pg. lia. }
+      rewrite Hm. cbn [bind]. rewrite tie_wb_iface_setter.
+      unfold gen_wishbone_Interface_get_addr_width, gen_wishbone_Interface_get_data_width, gen_wishbone_Interface_get_granularity.
+      cbn [wishbone_Interface_signature snd]. pose proof Ax as Ax'. rewrite S in Ax'. injection Ax' as A1 A2 A3 _.
+      rewrite A1, A2, A3, M1, M2. cbn [zof]. rewrite Z.eqb_refl, K. cbn [negb bind]. rewrite Z.eqb_refl. cbn [negb bind rmap].
+      unfold wb_attr, one_bus. cbn [wishbone_Decoder_port_bus wishbone_Decoder_ports wishbone_Interface_signature fst snd xorb].
+      rewrite Ax. reflexivity.
+  - destruct (wb_init_err _ _ (VInt g') _ _ I E) as (e' & M & <-). cbn [gran_arg] in M. rewrite M. reflexivity.
+Qed.
+Print Assumptions tie_wbdec_ports.
+
+(* ---------------------------------------------------------------- wishbone.sram.WishboneSRAM *)
+
+Lemma pow2_check n : negb (is_int (VInt n)) || (n <=? 0) || negb (Z.land n (n - 1) =? 0) = negb (is_pow2 n).
+Proof. unfold is_pow2. cbn [is_int negb orb]. destruct (n <=? 0) eqn:A, (0 <? n) eqn:B; try lia; reflexivity. Qed.
+
+(* the address width the SRAM gives its memory map is the one the setter expects: never a refusal *)
+Lemma sram_addr_aux size g j : is_pow2 size = true -> 0 < g -> 0 <= j -> 2 ^ j * g <= size * g -> 0 < Z.log2 size ->
+  Z.log2 size = Z.max 1 (Z.log2 (size * g / (2 ^ j * g)) + j).
+Proof.
+  intros P Hg Hj L K. rewrite Z.div_mul_cancel_r by lia.
+  pose proof (is_pow2_log2 size P) as S. set (ks := Z.log2 size) in *.
+  assert (J : j <= ks).
+  { apply (Z.pow_le_mono_r_iff 2); [lia|lia|]. rewrite <- S. nia. }
+  rewrite S, <- Z.pow_sub_r by lia. rewrite Z.log2_pow2 by lia. lia.
+Qed.
+
+Lemma sram_addr size d g j : is_pow2 size = true -> wb_width_ok d = true -> wb_width_ok g = true -> g <= d ->
+  d <= size * g -> 0 < Z.log2 size -> exact_log2 (d / g) = Ok j ->
+  Z.log2 size = Z.max 1 (Z.log2 (size * g / d) + j).
+Proof.
+  intros P Hd Hg L1 L2 K J. apply wb_width_ok_spec in Hd. apply wb_width_ok_spec in Hg.
+  destruct Hd as [->|[->|[->| ->]]], Hg as [->|[->|[->| ->]]]; try lia;
+    vm_compute in J; injection J as <-;
+    match goal with |- context [size * ?g / ?d] =>
+      match goal with |- context [_ + ?j] => change d with (2 ^ j * g); apply sram_addr_aux; auto; lia end end.
+Qed.
+
+Theorem tie_sram_ports : forall size d gran, gran_ok gran ->
+  rmap (fun c => (absd (wishbone_sram_WishboneSRAM_ports c), wb_attr (wishbone_sram_WishboneSRAM_port_wb_bus c)))
+       (gen_wishbone_sram_WishboneSRAM_init (VInt size) (VInt d) gran None None None None None) =
+  cv (fun p => ([("wb_bus", AIface p [])], signature_of_port p)) (sram_bus size d (gran_arg gran)).
+Proof.
+  intros size d gran G. unfold gen_wishbone_sram_WishboneSRAM_init, sram_bus. cbv zeta.
+  set (g2 := if is_none gran then VInt d else gran).
+  assert (G2 : exists g', g2 = VInt g' /\ g' = match gran_arg gran with Some x => x | None => d end).
+  { destruct gran; try contradiction; cbn; eauto. }
+  destruct G2 as (g' & -> & Eg). rewrite <- Eg. clear Eg G gran.
+  cbn [zof pyint_in opaque_step bind]. fold (z_in d [8; 16; 32; 64]). fold (z_in g' [8; 16; 32; 64]).
+  rewrite pow2_check, !width_in_ok.
+  destruct (is_pow2 size) eqn:P; cbn [negb]; [|reflexivity].
+  destruct (wb_width_ok d) eqn:Pd; cbn [negb]; [|reflexivity].
+  destruct (wb_width_ok g') eqn:Pg; cbn [negb]; [|reflexivity].
+  destruct (size * g' <? d) eqn:L2; [reflexivity|].
+  unfold exact_log2 at 1, MW.exact_log2 at 1.
+  destruct (is_pow2 (size * g' / d)) eqn:P2; cbn [bind MW.bind]; [|reflexivity].
+  destruct (gen_wishbone_Signature_init _ _ _ _) as [s|e] eqn:E; cbn [bind rmap].
+  - pose proof (wb_init_ok _ _ (VInt g') _ _ I E) as M. destruct (wb_create_ok _ _ (VInt g') _ _ I E) as (x & C & Ax).
+    cbn [gran_arg] in M. change (feats_of (feats_list [])) with no_features in M. change (feats_bad []) with false in M.
+    rewrite M, C. cbn [bind MW.bind].
+    destruct (construct_wb_accepts _ _ _ _ _ _ M) as (Pa & _ & _ & Pl & _ & S). cbv zeta in Pl, S.
+    unfold exact_log2 at 1, MW.exact_log2 at 1. rewrite P. cbn [bind MW.bind].
+    destruct (Z.log2 size <=? 0) eqn:K.
+    + rewrite mm_init_bad; [reflexivity|]. unfold mm_bad. cbn [is_int zof negb orb]. rewrite K. reflexivity.
+    + destruct (mm_init_ok (VInt (Z.log2 size)) (VInt g') (VInt 0)) as (m & Hm & M1 & M2 & _).
+      { unfold mm_bad. cbn [is_int zof negb orb]. apply wb_width_ok_spec in Pg. lia. }
+      rewrite Hm. cbn [bind]. rewrite tie_wb_iface_setter.
+      unfold gen_wishbone_Interface_get_addr_width, gen_wishbone_Interface_get_data_width, gen_wishbone_Interface_get_granularity.
+      cbn [wishbone_Interface_signature snd]. pose proof Ax as Ax'. rewrite S in Ax'. injection Ax' as A1 A2 A3 _.
+      rewrite A1, A2, A3, M1, M2. cbn [zof]. rewrite Z.eqb_refl. cbn [negb].
+      destruct (ratio_pow2 d g' Pd Pg Pl) as (j & J & _). rewrite J. cbn [bind].
+      rewrite <- (sram_addr size d g' j P Pd Pg Pl) by (auto; lia). rewrite Z.eqb_refl. cbn [negb bind rmap cv].
+      unfold wb_attr. cbn [wishbone_sram_WishboneSRAM_port_wb_bus wishbone_sram_WishboneSRAM_ports wishbone_Interface_signature fst snd xorb].
+      rewrite Ax. reflexivity.
+  - destruct (wb_init_err _ _ (VInt g') _ _ I E) as (e' & M & <-). cbn [gran_arg] in M.
+    change (feats_of (feats_list [])) with no_features in M. change (feats_bad []) with false in M. rewrite M. reflexivity.
+Qed.
+Print Assumptions tie_sram_ports.
